@@ -185,3 +185,61 @@ def selfcheck(ref, x, h=1e-6):
         gn[i] = (ref.f(x + e) - ref.f(x - e))/(2*h)
         Hn[:, i] = (ref.g(x + e) - ref.g(x - e))/(2*h)
     return max(np.abs(gn - g).max(), np.abs(Hn - H).max())/(1. + np.abs(g).max() + np.abs(H).max())
+
+
+# ------------------------------------------------------------------ halving-schedule family
+# f(x, y) = a1 x + h1/2 x^2 + q/4 x^4 + a2 y + h2/2 y^2, started at the origin: gradient (a1, a2),
+# Hessian diag(h1, h2).  The parameters are tuned so that exactly trial k of the documented schedule of ONE
+# Newton-CG iteration is the first that does not raise the energy:
+#   trials 0..5:  x0 - 2^-k * n          n  = H^-1 g  (or  g.g/|g.H.g| * g  when g.H.g < 0: CG fallback)
+#   trials 6..8:  x0 - 2^-(k-6) * dd     dd = g.g/|g.H.g| * g                (line-search reset)
+def halving_params(seed):
+    """-> list of (family, designed first successful trial index or None, [a1, h1, q, a2, h2])."""
+    a = 1. + 0.01*seed
+    out = []
+    h = 1./64
+    for k in range(6):                      # convex, 1-d along the gradient (y at its minimum)
+        L = 1.3*(a/h)/2**k
+        out.append(("pos", k, [a, h, 4*(a - 0.5*h*L)/L**3, 0., 1.]))
+    for k in range(6):                      # small negative curvature along the gradient
+        L = 1.3*(a/h)/2**k
+        out.append(("neg", k, [a, -h, 4*(a + 0.5*h*L)/L**3, 0., 1.]))
+    for k, q in ((6, 0.25), (7, 2.), (8, 20.), (None, 200.)):   # Newton step 4096x too long in x; reset decides
+        out.append(("reset", k, [a, 2.**-12, q*a**-2, a, 1.]))
+    return out
+
+
+def halving_f(x, p):
+    a1, h1, q, a2, h2 = p
+    return float(a1*x[0] + 0.5*h1*x[0]**2 + 0.25*q*x[0]**4 + a2*x[1] + 0.5*h2*x[1]**2)
+
+
+def halving_jax(v, p):
+    """Same function in jax.numpy; `p` may be a traced array (one compilation serves every parameter set)."""
+    t = v.tree if hasattr(v, "tree") else v
+    x, y = t["a"][0], t["b"][0]
+    return p[0]*x + 0.5*p[1]*x**2 + 0.25*p[2]*x**4 + p[3]*y + 0.5*p[4]*y**2
+
+
+def halving_reference(p, margin=1e-9):
+    """Reference re-implementation of one Newton-CG iteration from the origin.
+    -> dict(k=first successful trial index or None, x=expected position, ambiguous=bool, energies=[...])."""
+    a1, h1, q, a2, h2 = p
+    x0 = np.zeros(2)
+    g = np.array([a1, a2])
+    H = np.diag([h1, h2])
+    gam, c = float(g @ g), float(g @ H @ g)
+    if c < 0:
+        n = gam/abs(c)*g                      # CG: first direction has negative curvature -> steepest descent step
+    else:
+        n = np.linalg.solve(H, g)             # CG converges to the Newton step (H positive definite here)
+    dd = gam/abs(c)*g
+    trials = [x0 - 2.**-k*n for k in range(6)] + [x0 - 2.**-k*dd for k in range(3)]
+    e0 = halving_f(x0, p)
+    en = [halving_f(t, p) for t in trials]
+    for k, (t, e) in enumerate(zip(trials, en)):
+        if abs(e - e0) <= margin*(1. + abs(e0)):
+            return dict(k=k, x=t, ambiguous=True, energies=en)
+        if e <= e0:
+            return dict(k=k, x=t, ambiguous=False, energies=en)
+    return dict(k=None, x=x0, ambiguous=False, energies=en)
